@@ -5,6 +5,7 @@ import (
 	"fmt"
 	"io"
 	"sync"
+	"sync/atomic"
 
 	"google.golang.org/grpc"
 	"google.golang.org/grpc/codes"
@@ -98,6 +99,11 @@ func c07List(tier string) []c07Case {
 	for k := 0; k < tierN(tier, 2, 12); k++ {
 		out = append(out, c07Case{c07Scn{"http-send-in-flight", "bidi", 1, 0, 0}, []string{"cancel", "deadline"}[k%2], 0, []int{4, 16}[k%2], "none"})
 	}
+	// a send issued after the cancellation while the stream's read loop has not ended the stream
+	// yet, over a transport that takes a message on an ended context when it need not wait
+	for k := 0; k < tierN(tier, 4, 24); k++ {
+		out = append(out, c07Case{c07Scn{"send-after-cancel-read-loop-late", []string{"bidi", "client"}[k%2], 1, 0, 0}, []string{"cancel", "deadline"}[(k/2)%2], 0, []int{1, 4, 16}[k%3], "none"})
+	}
 	return out
 }
 
@@ -139,6 +145,80 @@ func c07Progs(sc c07Scn) (cops, hops []Op) {
 	return
 }
 
+// c07SendAfterCancelLate: the caller cancels (or its deadline passes) and then sends, while the
+// stream's read loop - the goroutine that ends the stream - is held just before it does so (a loaded
+// machine does the same, rarely), over a link that completes a write on an ended context when it
+// does not have to wait. "Its sends fail with the context's error": also then.
+func c07SendAfterCancelLate(tier string, seed int64, idx int, c c07Case, res *core.Result) {
+	res.NonTrivial = true
+	setGMP(c.GMP)
+	h := bed.NewHooks()
+	parked := make(chan struct{}, 1)
+	release := make(chan struct{})
+	var armed atomic.Bool
+	h.On("cs.readloop.exit", func(uint64) {
+		if armed.Load() {
+			select {
+			case parked <- struct{}{}:
+				<-release
+			default:
+			}
+		}
+	})
+	h.Install()
+	b := bed.New(bed.Opts{Cap: 8, Serialise: idx%2 == 0})
+	b.Links[0].Eager = true
+	tag := fmt.Sprintf("sacl%d", idx)
+	b.Impl.SetStream(tag, func(t, k string, ss grpc.ServerStream) error {
+		for ss.RecvMsg(new(svc.BV)) == nil {
+		}
+		return ss.Context().Err()
+	})
+	m := svc.NewManualCtx(context.Background())
+	s, err := svc.Open(m, b.Conns[0], c.Scn.Kind, tag, nil)
+	if err != nil {
+		res.Verdict, res.Note = core.Inconclusive, "open failed: "+err.Error()
+		close(release)
+		finish(tier, b, h, res)
+		return
+	}
+	s.Send([]byte("before"))
+	quiet(tier)
+	armed.Store(true)
+	if c.How == "cancel" {
+		m.Cancel()
+	} else {
+		m.Fire()
+	}
+	if st, _ := settle(tier, func() bool { return len(parked) > 0 }); st != "ok" {
+		res.Verdict, res.Note = core.Inconclusive, "the read loop did not reach its exit hook: "+st
+		close(release)
+		finish(tier, b, h, res)
+		return
+	}
+	var sendErr error
+	done := make(chan struct{})
+	go func() { defer close(done); sendErr = s.Send([]byte("late")) }()
+	st, snap := settle(tier, func() bool {
+		select {
+		case <-done:
+			return true
+		default:
+			return false
+		}
+	})
+	close(release)
+	if st == "stuck" {
+		res.ViolateD("later-operation-hangs-after-cancel/"+c.Scn.Name, map[string]any{"goat_goroutines": goatParked(snap)}, "a SendMsg issued after the %s never returns", c.How)
+	} else if st == "ok" && sendErr == nil {
+		res.Violate("send-after-cancel-succeeds", "%s of a %s stream, then a SendMsg while the stream's read loop has not yet ended the stream (transport that takes a message on an ended context): the send returned nil", c.How, c.Scn.Kind)
+	} else if st == "ok" {
+		res.Stat("sends_after_cancel_before_read_loop_ended", 1)
+	}
+	quiet(tier)
+	finish(tier, b, h, res)
+}
+
 func c07Run(tier string, seed int64, idx int) *core.Result {
 	c := c07List(tier)[idx]
 	res := &core.Result{Verdict: core.Held, Sample: c, Sig: fmt.Sprintf("%+v/%d", c, idx)}
@@ -148,6 +228,10 @@ func c07Run(tier string, seed int64, idx int) *core.Result {
 	}
 	if c.Scn.Name == "websocket-send-half-written" {
 		c07WSCancel(tier, seed, idx, c, res)
+		return res
+	}
+	if c.Scn.Name == "send-after-cancel-read-loop-late" {
+		c07SendAfterCancelLate(tier, seed, idx, c, res)
 		return res
 	}
 	setGMP(c.GMP)
@@ -377,13 +461,13 @@ func init() {
 	core.Register(&core.Prop{
 		ID:             "C07",
 		Level:          "fault_enumeration",
-		Rule:           "scenarios = 7 program pairs over the 3 streaming kinds (ping-pong, send-all, burst, handler waiting after half-close / after k messages, 0..5 responses queued unread) x {alone, 2 other calls active (thorough; two quick scenarios)}; the cancellation (explicit cancel or manual deadline expiry) is placed after EVERY prefix of the wire trace (tap callback on the n-th delivered envelope, n = 0..trace length). Checked at final states: every pending and later operation returned, later RecvMsg gives Canceled/DeadlineExceeded (or io.EOF only if the stream's trailer is on the wire), later sends fail, exactly one reset went out unless the trailer had been delivered, the handler is not left running with a live context, a probe call succeeds. Non-trivial = the cancellation landed while the stream was open; distinct = (scenario, how, position, plan). Plus families over the shipped transports: (websocket, loopback sockets with stalling writes) cancel / deadline while a 64 KiB send of the stream is half-way onto the socket - the send returns, later receives carry the context's status, the handler's context ends, hangs judged at final states of the socket scenario; (HTTP, two instances behind loopback servers) cancel / deadline while the POST of a send is held in front of the server endpoint - the handler's context must end within 20 s.",
+		Rule:           "scenarios = 7 program pairs over the 3 streaming kinds (ping-pong, send-all, burst, handler waiting after half-close / after k messages, 0..5 responses queued unread) x {alone, 2 other calls active (thorough; two quick scenarios)}; the cancellation (explicit cancel or manual deadline expiry) is placed after EVERY prefix of the wire trace (tap callback on the n-th delivered envelope, n = 0..trace length). Checked at final states: every pending and later operation returned, later RecvMsg gives Canceled/DeadlineExceeded (or io.EOF only if the stream's trailer is on the wire), later sends fail, exactly one reset went out unless the trailer had been delivered, the handler is not left running with a live context, a probe call succeeds. Non-trivial = the cancellation landed while the stream was open; distinct = (scenario, how, position, plan). Plus families over the shipped transports: (websocket, loopback sockets with stalling writes) cancel / deadline while a 64 KiB send of the stream is half-way onto the socket - the send returns, later receives carry the context's status, the handler's context ends, hangs judged at final states of the socket scenario; (HTTP, two instances behind loopback servers) cancel / deadline while the POST of a send is held in front of the server endpoint - the handler's context must end within 20 s. Plus (quick 4, thorough 24) a SendMsg issued after the cancel / deadline while the stream's read loop is held just before it ends the stream, over a link that completes writes on an ended context: the send must fail.",
 		Plan:           func(tier string, seed int64) int { return len(c07List(tier)) },
 		ThoroughRounds: 8,
 		Run:            c07Run,
 		Exhaustive:     func(string) bool { return true },
 		RequiredStats: func(string) []string {
-			return []string{"cancellations_checked", "resets_observed", "handler_contexts_checked", "stream_completed_or_failed_at_open", "ws_cancel_mid_write_cases", "http_cancel_during_send_cases", "cancellations_through_proxy"}
+			return []string{"cancellations_checked", "resets_observed", "handler_contexts_checked", "stream_completed_or_failed_at_open", "ws_cancel_mid_write_cases", "http_cancel_during_send_cases", "cancellations_through_proxy", "sends_after_cancel_before_read_loop_ended"}
 		},
 		Assumptions: []string{"HTTP family: no final-state argument over net/http; 20 s on loopback without the reset arriving is taken as never", "exhaustive = every cancel position of every scenario's wire trace; schedules between positions are sampled"},
 	})
